@@ -4,11 +4,14 @@ import (
 	"bytes"
 	"fmt"
 	"math/rand"
+	"net"
+	"net/http"
 	"os"
 	"path/filepath"
 	"reflect"
 	"sort"
 	"strings"
+	"time"
 
 	"github.com/bluenviron/gomavlib/v3/pkg/conversion"
 	"github.com/bluenviron/gomavlib/v3/pkg/dialect"
@@ -44,11 +47,11 @@ type XMsg struct {
 	Fields []XField `json:"fields"`
 }
 type XFile struct {
-	Fname    string `json:"fname"`
-	Version  B      `json:"version"`
-	Includes []int  `json:"includes"` // 1-based file indices
+	Fname    string  `json:"fname"`
+	Version  B       `json:"version"`
+	Includes []int   `json:"includes"` // 1-based file indices
 	Enums    []XEnum `json:"enums"`
-	Messages []XMsg `json:"messages"`
+	Messages []XMsg  `json:"messages"`
 }
 type XDoc struct {
 	Main  int     `json:"main"`
@@ -257,6 +260,10 @@ func genDoc(r *rand.Rand, idx int) XDoc {
 	if collide && nfiles < 3 {
 		nfiles = 3
 	}
+	remoteDoc := idx%4 == 1 && idx%3 != 0 // imported from a URL (see cmdC18Gen): the main file includes at least two others
+	if remoteDoc && nfiles < 3 {
+		nfiles = 3
+	}
 	doc := XDoc{Main: 1}
 	for f := 0; f < nfiles; f++ {
 		xf := XFile{Fname: fmt.Sprintf("f%d_%d.xml", idx, f), Version: B{}, Includes: []int{}, Enums: []XEnum{}, Messages: []XMsg{}}
@@ -294,6 +301,29 @@ func genDoc(r *rand.Rand, idx int) XDoc {
 				doc.Files[f].Includes = append(doc.Files[f].Includes, h+1)
 			}
 		}
+	}
+	if remoteDoc {
+		for _, h := range []int{2, 3} {
+			has := false
+			for _, x := range doc.Files[0].Includes {
+				has = has || x == h
+			}
+			if !has {
+				doc.Files[0].Includes = append(doc.Files[0].Includes, h)
+			}
+		}
+		sort.Ints(doc.Files[0].Includes)
+		// files 2 and 3 stay independent of each other (otherwise the order in which they are fetched cannot matter)
+		var keep []int
+		for _, x := range doc.Files[1].Includes {
+			if x != 3 {
+				keep = append(keep, x)
+			}
+		}
+		if keep == nil {
+			keep = []int{}
+		}
+		doc.Files[1].Includes = keep
 	}
 	// every file must be reachable from the main file: link orphans from file 1
 	reach := map[int]bool{1: true}
@@ -453,9 +483,38 @@ func cmdC18Gen(o opts) {
 		for run := 0; run < 2; run++ {
 			dir := filepath.Join(work, fmt.Sprintf("d%d", i), []string{"a", "b"}[run])
 			os.MkdirAll(dir, 0o755)
+			// every fourth document (flat file names only) is imported from a URL: a loopback HTTP server that answers
+			// one include late (the first one in run a, the last one in run b)
+			remote := i%4 == 1 && i%3 != 0 && len(doc.Files) > 1
+			src := dir
+			if remote {
+				src = filepath.Join(dir, "src")
+			}
 			for _, f := range doc.Files {
-				os.MkdirAll(filepath.Dir(filepath.Join(dir, f.Fname)), 0o755)
-				os.WriteFile(filepath.Join(dir, f.Fname), []byte(doc.xml(f)), 0o644)
+				os.MkdirAll(filepath.Dir(filepath.Join(src, f.Fname)), 0o755)
+				os.WriteFile(filepath.Join(src, f.Fname), []byte(doc.xml(f)), 0o644)
+			}
+			target := doc.Files[0].Fname
+			var srv *http.Server
+			if remote {
+				incs := doc.Files[0].Includes
+				slow := doc.Files[incs[0]-1].Fname
+				if run == 1 {
+					slow = doc.Files[incs[len(incs)-1]-1].Fname
+				}
+				ln, lerr := net.Listen("tcp4", "127.0.0.1:0")
+				if lerr != nil {
+					fatal("%v", lerr)
+				}
+				fs := http.FileServer(http.Dir(src))
+				srv = &http.Server{Handler: http.HandlerFunc(func(w http.ResponseWriter, rq *http.Request) {
+					if strings.HasSuffix(rq.URL.Path, "/"+slow) {
+						time.Sleep(150 * time.Millisecond)
+					}
+					fs.ServeHTTP(w, rq)
+				})}
+				go srv.Serve(ln) //nolint:errcheck
+				target = "http://" + ln.Addr().String() + "/" + doc.Files[0].Fname
 			}
 			cwd, _ := os.Getwd()
 			os.Chdir(dir)
@@ -468,8 +527,11 @@ func cmdC18Gen(o opts) {
 						err = fmt.Errorf("panic: %v", p)
 					}
 				}()
-				return conversion.Convert(doc.Files[0].Fname, false)
+				return conversion.Convert(target, false)
 			}()
+			if srv != nil {
+				srv.Close()
+			}
 			os.Stderr = stderr
 			os.Chdir(cwd)
 			if err != nil {
@@ -506,10 +568,10 @@ func cmdC18Probe(o opts) {
 	rec := newRec(o.out)
 	r := rand.New(rand.NewSource(o.seed))
 	var runs []struct {
-		I             int     `json:"i"`
-		Doc           XDoc    `json:"doc"`
-		GenErr        bool    `json:"gen_err"`
-		Deterministic bool    `json:"deterministic"`
+		I             int  `json:"i"`
+		Doc           XDoc `json:"doc"`
+		GenErr        bool `json:"gen_err"`
+		Deterministic bool `json:"deterministic"`
 	}
 	readVectors(o.vectors, &runs)
 	byI := map[int]genDialectEntry{}
